@@ -290,6 +290,11 @@ def verify_contract(contract, want_smt_sample=True, log=None, shard=()):
                     verdict, m, dt2 = core.solve_frontend(ob.pc, ob.goal, contract.solver_timeout_ms)
                     dt += dt2
                 if verdict == "unknown":
+                    verdict, m, dt2 = core.solve_cvc5(ob.pc, ob.goal, contract.solver_timeout_ms)
+                    dt += dt2
+                    if verdict != "unknown":
+                        res.by_cvc5 = getattr(res, "by_cvc5", 0) + 1
+                if verdict == "unknown":
                     verdict, m, dt2 = core.refute_small(ob.pc, ob.goal, ex.lengths)
                     dt += dt2
                 if verdict == "unknown":
